@@ -264,11 +264,11 @@ def config_for(pid, name, tier):
     return cfg
 
 
-def expected_harnesses(pid, tier):
+def expected_harnesses(pid, tier, hdir=None):
     """Names of the harnesses the overlay must produce (parsed from the harness sources)."""
     import os
     names = []
-    here = os.path.dirname(__file__)
+    here = hdir or os.path.dirname(__file__)
     files = [f for fs in PROPS[pid].get('hosts', {}).values() for f in fs]
     for f in files:
         src = open(os.path.join(here, f)).read()
